@@ -102,6 +102,7 @@ fn query(a: &AssignmentsProbe, decl: &[(i32, i32)]) -> String {
 
 pub fn case(r: &mut Rng, out: &mut Out) {
     let mut a = AssignmentsProbe::default();
+    let _ = a.drain_events();
     let mut decl: Vec<(i32, i32)> = vec![(1, 1)];
     let mut ops: Vec<Op> = Vec::new();
     let mut obs: Vec<String> = Vec::new();
@@ -210,9 +211,13 @@ pub fn case(r: &mut Rng, out: &mut Out) {
             }
             Op::Query => query(&a, &decl),
         };
+        // bookkeeping: the domain events raised by the operation (the sink ignores duplicates)
+        let mut evs = a.drain_events();
+        evs.sort_by_key(|e| (e.1, e.0));
+        let evs = format!("ev[{}]", evs.iter().map(|(k, x)| format!("{}.{}", x, k)).collect::<Vec<_>>().join(";"));
         match &op {
             Op::Query => obs.push(o),
-            _ => obs.push(format!("{}{}{}", o, snapshot(&a, &decl), std::mem::take(&mut tail))),
+            _ => obs.push(format!("{}{}{}{}", o, snapshot(&a, &decl), std::mem::take(&mut tail), evs)),
         }
         ops.push(op);
     }
